@@ -344,9 +344,60 @@ func buildC16(cfg *mon.Config) []*mon.Sub {
 		Exec: c16IncrExec,
 	})
 	subs = append(subs, &mon.Sub{
+		Name:          "added-symbols-through-the-whole-tokenizer",
+		Rule:          "a symbol registered by the caller on a generic or expression tokenizer (35 symbols of 1..4 characters, among them ones that start with a character another state looks at first: '-', '.', '/'; ones that contain U+FFFD, U+FFFE, a line break; prefixes and extensions of built-in symbols), with an application-defined type, is then met in a text after a bracket or a blank and before a word, a bracket, a blank or the end (symbols whose first character belongs to a word or comment in that tokenizer are left out): the whole tokenizer must deliver it as exactly one token with its text and type (the longest registered symbol wins also when the number or comment state saw its first character first), and the neighbours unchanged; enumerated",
+		Exhaustive:    true,
+		DistinctByGen: true,
+		Floor:         200,
+		Gen: func(emit func(string)) {
+			syms := []string{"->", "-->", "-", "..", "...", ".", ".:", "-.", "/.", "/-", "/=", "/:", "//", "=>", ":=", "::", "<=>", "<<=", ">>>", "!==", "<-", "|>", "\ufffd\ufffd", "<\ufffd>", "=\ufffe", "\ufffe=", "&&", "||", "??", "?.", "~=", "^^", "**", "%%", "@@", "$("}
+			for _, k := range []string{"generic", "expression"} {
+				for _, sy := range syms {
+					for _, l := range []string{")", "x1 ", "7 ", "]"} {
+						for _, r := range []string{"b", "(", " y", ""} {
+							emit(k + "\x00" + sy + "\x00" + l + "\x00" + r)
+						}
+					}
+				}
+			}
+		},
+		Exec: func(c *mon.Case) {
+			parts := strings.SplitN(c.Payload, "\x00", 4)
+			kind, sy, l, r := parts[0], parts[1], parts[2], parts[3]
+			first := []rune(sy)[0]
+			if (kind == "generic" && (first >= 0x100 || first == '#')) || (kind == "expression" && strings.HasPrefix(sy, "/*")) {
+				c.Count("the symbol's first character belongs to a word or comment in this tokenizer")
+				return
+			}
+			c.NonTrivial()
+			t := newTokenizer(kind)
+			setOptions(t, 0)
+			var got, tl, tr []tok
+			if p := mon.Try(func() {
+				t.SymbolState().Add(sy, 4321)
+				tl, tr = tokenizeAll(t, l), tokenizeAll(t, r)
+				got = tokenizeAll(t, l+sy+r)
+			}); p != nil {
+				c.FailPanic("tokenizer with an added symbol", p)
+				return
+			}
+			show := func(ts []tok) string {
+				var out []string
+				for _, x := range ts {
+					out = append(out, fmt.Sprintf("%d %q", x.Type, x.Value))
+				}
+				return strings.Join(out, " ")
+			}
+			want := append(append(append([]tok{}, tl[:len(tl)-1]...), tok{Type: 4321, Value: sy}), tr...)
+			if show(got) != show(want) {
+				c.Failf("a registered symbol met in a text is not delivered as the longest registered symbol with its own type", "%s tokenizer, Add(%q, 4321), text %q: got %s, want %s", kind, sy, l+sy+r, show(got), show(want))
+			}
+		},
+	})
+	subs = append(subs, &mon.Sub{
 		Name:          "builtin-tokenizers-growth",
 		Serial:        true,
-		Rule:          "registering further symbols never alters existing ones: on the generic, expression, mustache and CSV symbol states every built-in symbol is read before and after 6 extra symbols sharing its prefixes are added; a case is one (tokenizer, extra set); non-trivial always",
+		Rule:          "registering further symbols never alters existing ones: on the generic, expression, mustache and CSV symbol states every built-in symbol is read (by a direct call of the symbol state, handing it a tokenizer that has tokenized another text before) before and after 6 extra symbols sharing its prefixes are added; a case is one (tokenizer, extra set); non-trivial always",
 		DistinctByGen: true,
 		Floor:         4,
 		Gen: func(emit func(string)) {
@@ -360,6 +411,7 @@ func buildC16(cfg *mon.Config) []*mon.Sub {
 			c.NonTrivial()
 			parts := strings.SplitN(c.Payload, "\x00", 2)
 			t := newTokenizer(parts[0])
+			t.TokenizeBuffer("warm up <= 1") // the tokenizer handed to the state has worked before: it still holds that (exhausted) reader
 			builtin := map[string][]string{"generic": {"<>", "<=", ">="}, "expression": {"<=", ">=", "<>", "!=", ">>", "<<"},
 				"mustache": {"{{", "}}", "{{{", "}}}"}, "csv": {"\n", "\r", "\r\n", "\n\r"}}[parts[0]]
 			read := func(s string) string {
@@ -370,6 +422,10 @@ func buildC16(cfg *mon.Config) []*mon.Sub {
 			before := map[string]string{}
 			for _, s := range builtin {
 				before[s] = read(s)
+				if !strings.HasSuffix(before[s], fmt.Sprintf(" %q", s)) {
+					c.Failf("a built-in symbol is not read as itself by a direct call of the symbol state", "tokenizer=%s (which has tokenized another text before): %q followed by x is read as %s", parts[0], s, before[s])
+					return
+				}
 			}
 			for i, e := range strings.Split(parts[1], ",") {
 				t.SymbolState().Add(e, 200+i)
